@@ -3,9 +3,10 @@
 spec:   spec/Tokens.tla (actions Push, Lag, Rename, RenameOne, ListNames; invariants C13_*)
 TLC:    exhaustive check of the bounded instances (thorough: plus seeded -simulate of a deeper one);
         every maximal behaviour (a well-formed token sequence and one call on it) is emitted
-replay: each token sequence is rendered as text in four layouts (dense `x(k-1)`, single spaces
-        `x ( k - 1 )`, the untokenize style `x (k -1 )`, dense padded with a blank at both ends
-        ` x(k-1) `) and handed to the REAL
+replay: each token sequence is rendered as text in every layout that applies (dense `x(k-1)`, single
+        spaces `x ( k - 1 )`, the untokenize style `x (k -1 )`, dense padded with a blank at both ends
+        ` x(k-1) `, line breaks inside brackets followed by an indented continuation line, backslash
+        continuation after operators outside brackets) and handed to the REAL
         sfc_models.utils.replace_token_from_lookup / replace_token / list_tokens.  The returned text is
         re-tokenised with Python's tokenize and logged as (kind, text) pairs; for results that consist
         only of names, integer literals and + - * the text is evaluated on the two integer valuations
@@ -24,8 +25,15 @@ Readings (the weaker one where the statement leaves a choice):
 * "name" is what the tokenizer calls NAME.  Names that Python's number constructors also accept as
   the text of a number (inf, nan, NaN, Infinity, INF, j) are names; they occur as the whole expression,
   signed, blank-padded, as keys and images of the map and as bystanders (instances MC_Tokens_words*).
-* blanks before the first token make the tokenizer emit INDENT/DEDENT; these are layout like NEWLINE
-  and are not part of the token sequence that is compared.
+* blanks before the first token make the tokenizer emit INDENT/DEDENT; these are layout like the
+  final NEWLINE and are not part of the token sequence that is compared.
+* line structure: a line break inside brackets (tokenizer: NL) and the end of a complete equation that
+  is followed by another one (tokenizer: NEWLINE with text) ARE tokens of the generated sequences
+  (Tokens!TokNL / TokNewline; instances MC_Tokens_lines / _blocks); an expression that crosses physical
+  lines inside brackets is one tokenizable expression and must be renamed like any other.  Layout
+  `indent` renders NL with an indented continuation line, layout `cont` puts a backslash continuation
+  after every binary operator / sign outside brackets.  Blocks are rendered flush left only (lines
+  indented differently from each other are not tokenizable: IndentationError on every tree).
 * a call that raises, or returns text tokenize cannot read, on a tokenizable input returned no
   expression: reported under C13_OnlyWholeNames (C13_ListIsNamesInOrder for list_tokens).
 Inputs are tokenizable by construction; a rendering that does not tokenize back to the generated
@@ -43,9 +51,10 @@ ENVS = [dict(x=6, x_1=3, xx=5, m_x=2, k=4, H__x=7, inf=8, nan=9, NaN=10, Infinit
 NUMERIC_WORDS = ('inf', 'nan', 'NaN', 'Infinity', 'INF', 'j')      # Tokens!NumericWords
 INT_LITS = ('1', '2', '0x1f')
 ARITH_OPS = ('+', '-', '*')
-SPACINGS = ('dense', 'spaced', 'untok', 'padded')
+SPACINGS = ('dense', 'spaced', 'untok', 'padded', 'indent', 'cont')
+LINE_KINDS = ('NL', 'NEWLINE')
 KIND = {tokenize.NAME: 'NAME', tokenize.NUMBER: 'NUMBER', tokenize.OP: 'OP', tokenize.STRING: 'STRING'}
-SKIP = (tokenize.ENCODING, tokenize.NEWLINE, tokenize.NL, tokenize.ENDMARKER, tokenize.INDENT, tokenize.DEDENT)
+SKIP = (tokenize.ENCODING, tokenize.ENDMARKER, tokenize.INDENT, tokenize.DEDENT)
 JOBS, MIN_CHUNK = 4, 3000   # few big TLC jobs beat many small ones here (measured: 4 x 11 000 traces 9 s, 15 x 3 000 36 s)
 INPUT_CLAUSES = ('input_grammar', 'input_tokenization', 'input_value', 'not_ready')
 
@@ -54,26 +63,68 @@ INPUT_CLAUSES = ('input_grammar', 'input_tokenization', 'input_value', 'not_read
 # projection
 # ---------------------------------------------------------------------------------------------
 
+def text_of(t):
+    return '\n' if t['kind'] in LINE_KINDS else t['text']
+
+
 def render(toks, spacing):
+    """the text of a token sequence in one layout; None when the layout does not apply to it
+    (`indent` needs an NL token, `cont` an operator outside brackets; neither is used on blocks)"""
     if spacing == 'dense':
-        return ''.join(t['text'] for t in toks)
-    if spacing == 'spaced':
-        return ' '.join(t['text'] for t in toks)
-    if spacing == 'padded':
-        return ' ' + ''.join(t['text'] for t in toks) + ' '
-    return ''.join(t['text'] + (' ' if t['kind'] in ('NAME', 'NUMBER') else '') for t in toks)
+        return ''.join(text_of(t) for t in toks)
+    if spacing == 'spaced':         # single blanks, none at the start of a new logical line
+        out = ''
+        for i, t in enumerate(toks):
+            out += ('' if i == 0 or toks[i - 1]['kind'] == 'NEWLINE' else ' ') + text_of(t)
+        return out
+    if spacing == 'padded':         # not with NL: untokenize then repeats the leading blank on the continuation
+        if any(t['kind'] == 'NL' for t in toks):    # line, a spelling this check does not model (see `indent`)
+            return None
+        return ' ' + ''.join(text_of(t) for t in toks) + ' '
+    if spacing == 'untok':
+        return ''.join(text_of(t) + (' ' if t['kind'] in ('NAME', 'NUMBER') else '') for t in toks)
+    kinds = set(t['kind'] for t in toks)
+    if spacing == 'indent':
+        if 'NL' not in kinds or 'NEWLINE' in kinds:
+            return None
+        return ''.join('\n    ' if t['kind'] == 'NL' else t['text'] for t in toks)
+    if spacing == 'cont':
+        if 'NEWLINE' in kinds:
+            return None
+        out, depth, used = '', 0, False
+        for i, t in enumerate(toks):
+            out += text_of(t)
+            if t['kind'] == 'OP':
+                if t['text'] in ('(', '['):
+                    depth += 1
+                elif t['text'] in (')', ']'):
+                    depth -= 1
+                elif depth == 0 and t['text'] != ',' and i + 1 < len(toks):
+                    out += ' \\\n  '
+                    used = True
+        return out if used else None
+    raise ValueError(spacing)
 
 
 def tokens_of(text):
-    """-> (ok, [{'kind', 'text'}, ...]) as Python's tokenize sees the text"""
+    """-> (ok, [{'kind', 'text'}, ...]) as Python's tokenize sees the text.  Line ends inside the text are
+    tokens (NL inside brackets, NEWLINE between logical lines; text 'NL'); the NEWLINE the tokenizer
+    supplies at the end of the text, and one written there, are layout."""
     out = []
     try:
         for tok in tokenize.tokenize(io.BytesIO(text.encode('utf-8')).readline):
             if tok.type in SKIP:
                 continue
-            out.append({'kind': KIND.get(tok.type, tokenize.tok_name.get(tok.type, 'OTHER')), 'text': tok.string})
+            if tok.type == tokenize.NEWLINE:
+                out.append({'kind': 'NEWLINE', 'text': 'NL'})
+            elif tok.type == tokenize.NL:
+                out.append({'kind': 'NL', 'text': 'NL'})
+            else:
+                out.append({'kind': KIND.get(tok.type, tokenize.tok_name.get(tok.type, 'OTHER')), 'text': tok.string})
     except Exception:
         return False, []
+    while out and out[-1]['kind'] == 'NEWLINE':
+        out.pop()
     return True, out
 
 
@@ -142,7 +193,7 @@ def observe_rename(call, toks, mapping):
         return {'ok': False, 'toks': [], 'text': 'EXC ' + type(e).__name__, 'vok': False, 'vals': [0, 0]}
     ok, got = tokens_of(text)
     vok, vals = evaluate(text, got, renamed_envs(toks, mapping)) if ok else (False, [0, 0])
-    return {'ok': ok, 'toks': got, 'text': text, 'vok': vok, 'vals': vals}
+    return {'ok': ok, 'toks': got, 'text': text.replace('\n', '<NL>'), 'vok': vok, 'vals': vals}
 
 
 def execute(beh):
@@ -150,11 +201,12 @@ def execute(beh):
     from sfc_models.utils import list_tokens, replace_token, replace_token_from_lookup
     toks = beh['toks']
     texts = dict((sp, render(toks, sp)) for sp in SPACINGS)
+    layouts = [sp for sp in SPACINGS if texts[sp] is not None]
     iok, ivals = evaluate(texts['dense'], toks, ENVS)
-    events = [{'ev': 'Build', 'toks': toks, 'seen': [tokens_of(texts[sp])[1] for sp in SPACINGS],
+    events = [{'ev': 'Build', 'toks': toks, 'seen': [tokens_of(texts[sp])[1] for sp in layouts],
                'iok': iok, 'ivals': ivals}]
     for act in beh['acts']:
-        for sp in SPACINGS:
+        for sp in layouts:
             text = texts[sp]
             if act['kind'] == 'Rename':
                 lookup = {}
@@ -204,7 +256,9 @@ def signature(clause, beh, events):
     toks = beh['toks']
     ev = first_offender(beh, events)
     if act['kind'] == 'ListNames':
-        return 'list_tokens:' + ('raises' if not ev.get('ok') else 'wrong-list')
+        text = render(toks, ev.get('sp') or 'dense') or ''
+        return 'list_tokens:' + ('raises' if not ev.get('ok') else 'wrong-list') + \
+            (':multi-line-input' if '\n' in text else '')
     if act['kind'] == 'Rename':
         m = [(p['from'], p['to']) for p in act['map']]
         keys = set(a for a, _ in m)
@@ -217,7 +271,9 @@ def signature(clause, beh, events):
         shape = 'one'
         fn = 'replace_token'
     if not ev.get('ok'):
-        return '%s:%s:no-expression-returned' % (fn, shape)
+        # an input that is one physical line / that crosses physical lines (inside brackets, continuation, block)
+        text = render(toks, ev.get('sp') or 'dense') or ''
+        return '%s:%s:no-expression-returned%s' % (fn, shape, ':multi-line-input' if '\n' in text else '')
     got = ev.get('toks', [])
     if len(got) != len(toks):
         return '%s:%s:token-count-changed' % (fn, shape)
@@ -274,6 +330,8 @@ def judge(rep, behs):
     rep.extra['real_calls'] = rep.extra.get('real_calls', 0) + sum(len(ev) - 1 for _, ev in traces)
     rep.extra['results_evaluated_under_renamed_env'] = rep.extra.get('results_evaluated_under_renamed_env', 0) + \
         sum(1 for _, evs in traces for ev in evs[1:] if ev.get('vok'))
+    rep.extra['multi_line_inputs'] = rep.extra.get('multi_line_inputs', 0) + \
+        sum(1 for b in behs for sp in SPACINGS if '\n' in (render(b['toks'], sp) or ''))
     rep.extra['lone_operand_expressions'] = rep.extra.get('lone_operand_expressions', 0) + \
         sum(1 for b in behs if is_lone(b))
     rep.extra['behaviours_with_numeric_word_key'] = rep.extra.get('behaviours_with_numeric_word_key', 0) + \
@@ -287,7 +345,7 @@ def judge(rep, behs):
         if kind == 'property':
             ev = first_offender(b, traces[i][1])
             rep.violate(clause, signature(clause, b, traces[i][1]), case,
-                        detail='input %r (%s) -> %s' % (render(b['toks'], ev.get('sp', 'dense')), ev.get('sp', ''),
+                        detail='input %r (%s) -> %s' % (render(b['toks'], ev.get('sp') or 'dense'), ev.get('sp', ''),
                                                         json.dumps(ev)[:300]))
         elif clause in INPUT_CLAUSES:
             raise core.MachineryError('C13 generated an input that is not what it claims (%s): %s'
@@ -298,8 +356,11 @@ def judge(rep, behs):
 
 # (cfg, number of -simulate traces or None for exhaustive)
 INSTANCES = {
-    'quick': [('MC_Tokens_quick.cfg', None), ('MC_Tokens_quick2.cfg', None), ('MC_Tokens_words.cfg', None)],
+    'quick': [('MC_Tokens_quick.cfg', None), ('MC_Tokens_quick2.cfg', None), ('MC_Tokens_words.cfg', None),
+              ('MC_Tokens_lines.cfg', None), ('MC_Tokens_blocks.cfg', None)],
     'thorough': [('MC_Tokens_quick.cfg', None), ('MC_Tokens_quick2.cfg', None), ('MC_Tokens_words.cfg', None),
+                 ('MC_Tokens_lines.cfg', None), ('MC_Tokens_blocks.cfg', None),
+                 ('MC_Tokens_lines2.cfg', None),
                  ('MC_Tokens_thorough.cfg', None), ('MC_Tokens_thorough2.cfg', None),
                  ('MC_Tokens_thorough3.cfg', None), ('MC_Tokens_words2.cfg', None),
                  ('MC_Tokens_sim.cfg', 6000)],
@@ -309,7 +370,8 @@ INSTANCES = {
 def run(rep):
     rep.rule = ('behaviours = all maximal histories of the bounded Tokens instances emitted by TLC: a token '
                 'sequence accepted by the expression grammar (<= MaxUnits steps) followed by one call '
-                '(Rename with a map of the instance, RenameOne, ListNames); each is replayed in four layouts. '
+                '(Rename with a map of the instance, RenameOne, ListNames); each is replayed in every layout that applies (dense, spaced, untokenize style, padded, indented '
+                'continuation lines, backslash continuation). '
                 'distinct = distinct behaviour JSON; non-trivial = the expression contains a name the call '
                 'has to act on (a key of the map / the target / any name for ListNames)')
     rep.assumptions = ['values are compared on two fixed integer valuations, on the fragment names / integer '
@@ -321,7 +383,7 @@ def run(rep):
     seen = set()
     for cfg, simulate in INSTANCES[rep.tier]:
         if simulate:
-            res = core.tlc('MC_Tokens', cfg, workers=1, tag='c13', simulate=simulate, depth=20, seed=rep.seed)
+            res = core.tlc('MC_Tokens', cfg, workers=1, tag='c13', simulate=simulate, depth=24, seed=rep.seed)
             m = re.search(r'The number of states generated: (\d+)', res.stdout)
             if m:       # -simulate reports generated states only (no distinct-state count)
                 res.states = int(m.group(1))
